@@ -1,6 +1,6 @@
 SPECIFICATION TSpec
 CONSTANT Sched = "fifo"
-CONSTANT KFS = {"D9", "D10"}
+CONSTANT KFS = {"D9", "D10", "D12"}
 CONSTRAINT Progress
 POSTCONDITION Accepted
 CHECK_DEADLOCK FALSE
